@@ -326,6 +326,11 @@ func runC24(w *World, r *Report) {
 		c24LimitSources(w, r, fn, "router.getMaxAttempts", 0, map[*ssa.Function]bool{})
 	}
 
+	// ---- R-C24-8
+	if fn := w.ssaFunc(rp, "RecordFailure"); fn != nil {
+		c24CountThenCompare(w, r, fn)
+	}
+
 	// ---- R-C24-4
 	if fn := w.ssaFunc(rp, "RecordFailure"); fn != nil {
 		isFailures := func(v ssa.Value) bool { return isFieldNamed(v, "failures") }
@@ -634,5 +639,78 @@ func c24LimitSources(w *World, r *Report, fn *ssa.Function, via string, depth in
 
 			r.Violate("R-C24-7", key, pos, "the limit comes from a value the analysis cannot show to be a checked parse")
 		}
+	}
+}
+
+// c24CountThenCompare: R-C24-8. Every write of a failure count in
+// RecordFailure is followed, on every path to a return, by the comparison of
+// the count with the limit: a path that records a failure and returns without
+// comparing can never lock the account (with the limit 1 the very first wrong
+// password has to lock it).
+func c24CountThenCompare(w *World, r *Report, fn *ssa.Function) {
+	r.Rule("R-C24-8", "RecordFailure compares after it counts: from every store of a non-zero failure count (rec.failures++, or a record created with a count) each path to a return passes the comparison of the count with the limit", 1)
+
+	isFailures := func(v ssa.Value) bool { return isFieldNamed(v, "failures") }
+	isLimit := func(v ssa.Value) bool {
+		return derivesFrom(v, func(s ssa.Value) bool {
+			c, ok := s.(*ssa.Call)
+
+			return ok && callID(c.Common()) == "internal/router.getMaxAttempts"
+		}, nil)
+	}
+
+	isCompare := func(in ssa.Instruction) bool {
+		bo, ok := in.(*ssa.BinOp)
+		if !ok {
+			return false
+		}
+
+		switch bo.Op {
+		case token.GEQ, token.GTR, token.LEQ, token.LSS, token.EQL, token.NEQ:
+			return (isFailures(bo.X) && isLimit(bo.Y)) || (isLimit(bo.X) && isFailures(bo.Y))
+		}
+
+		return false
+	}
+
+	n := 0
+
+	allInstrs(fn, func(in ssa.Instruction) {
+		st, ok := in.(*ssa.Store)
+		if !ok {
+			return
+		}
+
+		fa, ok := st.Addr.(*ssa.FieldAddr)
+		if !ok || fieldName(fa.X.Type(), fa.Field) != "failures" {
+			return
+		}
+
+		if k, isC := constInt(st.Val); isC && k == 0 {
+			return
+		}
+
+		n++
+
+		key := "router.RecordFailure|count then compare"
+		if n > 1 {
+			key += " #" + sprintInt(n)
+		}
+
+		escape := pathAvoiding(st, nil, isCompare, func(i ssa.Instruction) bool {
+			_, isRet := i.(*ssa.Return)
+
+			return isRet
+		})
+
+		if escape != nil {
+			r.Violate("R-C24-8", key, w.pos(st.Pos()), "a failure is counted here and the function can return (at "+w.pos(escape.Pos())+") without comparing the count with the limit: on that path the account is never locked, so with the limit 1 the first wrong password does not lock it and the next attempt has its password checked")
+		} else {
+			r.Discharge("R-C24-8", key, w.pos(st.Pos()), "the comparison with the limit lies on every path to a return")
+		}
+	})
+
+	if n == 0 {
+		r.Anchor("R-C24-8", "a store of the failure count in router.RecordFailure")
 	}
 }
